@@ -1,5 +1,6 @@
 from __future__ import annotations
 
+import math
 import re
 import typing as t
 import uuid
@@ -230,6 +231,15 @@ class FloatConverter(NumberConverter):
         signed: bool = False,
     ) -> None:
         super().__init__(map, min=min, max=max, signed=signed)  # type: ignore
+
+    def to_python(self, value: str) -> t.Any:
+        value_num = super().to_python(value)
+
+        if math.isinf(value_num):
+            # more digits than a float holds, there is no URL for the result
+            raise ValidationError()
+
+        return value_num
 
 
 class UUIDConverter(BaseConverter):
